@@ -146,6 +146,10 @@ def gen_repro(r, tier):
         scn = sysgen.gen(r, None, "C07", tier)
     if scn["cfg"]["algo"] == "priority-pool":
         scn["cfg"]["multi"] = True
+    if "pipes" not in scn and scn["cfg"]["waiting_seconds_mean"] * scn["cfg"]["tps"] < 1:
+        # a batch in every tick: thousands of pipelines, and every scheduler's backlog grows - keep those runs short (a
+        # pair of them plus fillers once overran the per-run alarm on a heavily loaded machine)
+        scn["cfg"]["duration"] = min(scn["cfg"]["duration"], 150.0 / scn["cfg"]["tps"])
     if "pipes" not in scn:
         # leave some workload parameters to the package defaults, as a partial params file would
         for key in r.sample(["num_pipelines", "num_operators", "cpu_io_ratio", "random_seed"], r.randint(0, 2)):
@@ -178,7 +182,7 @@ def gen_indep(r, tier):
         scn["cfg"]["random_seed"] = r.choice([0, 0, 0, 2 ** 32, 2 ** 32 - 1, 2 ** 63])
         scn["other_seed"] = r.choice(["default", "default", "default", 1, scn["cfg"]["random_seed"] + 2 ** 32, 2 ** 64])
         i, q, b = r.choice([(0.3, 0.1, 0.6), (0.33, 0.33, 0.34), (0.25, 0.25, 0.5)])
-        scn["cfg"].update(tps=10, duration=float(r.randint(10, 30)), waiting_seconds_mean=0.01, num_pipelines=r.choice([4, 7]),
+        scn["cfg"].update(tps=10, duration=float(r.randint(8, 15)), waiting_seconds_mean=0.01, num_pipelines=r.choice([4, 7]),
                           interactive_prob=i, query_prob=q, batch_prob=b)
     return scn
 
